@@ -3,6 +3,7 @@ package main
 
 import (
 	"bytes"
+	"encoding/binary"
 	"fmt"
 	"hash"
 	"strings"
@@ -70,9 +71,65 @@ func chunking(g *hx.Gen, total int) []int {
 	return out
 }
 
+// total lengths at which the 64-bit bit-length encoding (8*len mod 2^64, little-endian) changes shape:
+// the low 32-bit word of the bit count overflows at 2^29 bytes, byte 4 starts at 2^29, byte 5 at 2^37, …,
+// 8*len wraps at 2^61; len itself wraps at 2^64
+var lenEdges = []uint64{1 << 29, 1 << 32, 1 << 35, 1 << 37, 1 << 45, 1 << 53, 1 << 56, 1 << 61, 3 << 61, 1 << 62, 1 << 63, 0 /* 2^64 */}
+
+func genAt(g *hx.Gen) {
+	r := g.R
+	alg := r.PickStr("md4", "rmd160")
+	var L uint64
+	switch r.Intn(8) {
+	case 0:
+		L = r.U64() // anywhere
+		g.Stat("at.len-random")
+	case 1:
+		L = uint64(1)<<uint(r.Range(24, 63)) + uint64(r.Intn(200)) - 100
+		g.Stat("at.len-pow2")
+	default: // just below / at / above an edge, so that the Writes cross it
+		L = hx.Pick(r, lenEdges) + uint64(r.Intn(260)) - 130
+		g.Stat("at.len-edge")
+	}
+	nbuf := int(L % 64)
+	if r.Chance(1, 25) { // inconsistent digest: buffered length ≠ len mod 64 (Sum's explicit panic / model: same)
+		nbuf = r.Intn(64)
+		g.Stat("at.inconsistent")
+	}
+	words := 4
+	if alg == "rmd160" {
+		words = 5
+	}
+	st := r.Bytes(4 * words)
+	if r.Chance(1, 4) { // the standard initial state
+		if alg == "md4" {
+			st = hx.UnHex("0123456789abcdeffedcba9876543210")
+		} else {
+			st = hx.UnHex("0123456789abcdeffedcba9876543210f0e1d2c3")
+		}
+	}
+	var ops []string
+	total := 0
+	nw := r.Intn(4)
+	for j := 0; j < nw; j++ {
+		k := r.PickInt(0, 1, 55, 56, 63, 64, 65, 100, 130, 200)
+		ops = append(ops, fmt.Sprintf("w:%d", k))
+		total += k
+		if r.Chance(1, 3) {
+			ops = append(ops, "s:0")
+		}
+	}
+	ops = append(ops, fmt.Sprintf("s:%d", r.PickInt(0, 0, 3)))
+	g.Stat("at." + alg)
+	g.Emit("at alg=%s st=%s buf=%s len=%d ops=%s src=%s", alg, hx.Hex(st), hx.Hex(r.Bytes(nbuf)), L, strings.Join(ops, ","), hx.Hex(r.Bytes(total)))
+}
+
 func gen(g *hx.Gen) {
 	n := g.Count(6000, 150000)
 	r := g.R
+	for i := 0; i < g.Count(240, 6000); i++ {
+		genAt(g)
+	}
 	for i := 0; i < n; i++ {
 		alg := r.PickStr("md4", "rmd160")
 		total := pickLen(g)
@@ -124,20 +181,33 @@ func gen(g *hx.Gen) {
 func exec(line string) string {
 	o := hx.Parse(line)
 	var h hash.Hash
-	switch o.Str("alg") {
-	case "md4":
-		h = md4.New()
-	case "rmd160":
-		h = ripemd160.New()
-	default:
-		return "bad-op"
+	if o.Cmd == "at" { // start from a digest with chaining state, buffered tail and total length set directly
+		st, buf := o.Hex("st"), o.Hex("buf")
+		w := func(i int) uint32 { return binary.LittleEndian.Uint32(st[4*i:]) }
+		switch {
+		case o.Str("alg") == "md4" && len(st) == 16 && len(buf) < 64:
+			h = md4.VerifNewAt([4]uint32{w(0), w(1), w(2), w(3)}, buf, o.U64("len"))
+		case o.Str("alg") == "rmd160" && len(st) == 20 && len(buf) < 64:
+			h = ripemd160.VerifNewAt([5]uint32{w(0), w(1), w(2), w(3), w(4)}, buf, o.U64("len"))
+		default:
+			return "bad-op"
+		}
+	} else {
+		switch o.Str("alg") {
+		case "md4":
+			h = md4.New()
+		case "rmd160":
+			h = ripemd160.New()
+		default:
+			return "bad-op"
+		}
 	}
 	src := o.Hex("src")
 	if o.Cmd == "kat" { // published vector: the model must reproduce `want`, and so must the code
 		h.Write(src)
 		return hx.Hex(o.Hex("want")) + "|" + hx.Hex(h.Sum(nil))
 	}
-	if o.Cmd != "h" {
+	if o.Cmd != "h" && o.Cmd != "at" {
 		return "bad-op"
 	}
 	var outs []string
